@@ -976,13 +976,13 @@ theorem C15_carrier_first_child_only_fails :
   ⟨⟨true, 0, [], 0⟩, carrierChildren [0] [] ⟨true, [48], [.text [81, 85, 74, 68]]⟩, ⟨true, [48], [.text [81, 85, 74, 68]]⟩,
     by decide, by decide, by decide⟩
 
+set_option synthInstance.maxSize 512 in
 /-- PROBE FACT: the real handler, run by `harness facts` on a fresh message-carrier stream for every
 shape of `carrierUniverse` (the packet alone; a hint before / after it; thread + hint before; a body
 with base64-looking text before; white space around; an element named `data` in another namespace
 before / after; an IBB data element nested in another child before / after; many children on both
 sides; out-of-sequence packets behind / before other children), answers and delivers exactly what
 the model does -/
-set_option synthInstance.maxSize 512 in
 theorem C15_carrier_probe :
     Generated.C15.carrierProbe = some (carrierUniverse.map fun r => (r.1, r.2.1, r.2.2, (carrierModel r).1, (carrierModel r).2)) := by
   decide
